@@ -154,10 +154,23 @@ func (m *C02) After(w *world.World, a *world.Action, r *world.StepResult) *Viola
 			snap := *m.pre
 			snap.obs = map[string]world.ValObs{}
 			snap.byAddr = map[string]world.ValObs{}
+			// (x/slashing and x/evidence run before the provider's begin-blocker and take a jailed validator off the
+			// power index at once); a validator that unbonded its own stake in a transaction of this block was
+			// jailed after the launch and does not count
+			selfUnbonded := map[string]bool{}
+			for _, tx := range r.Txs {
+				if tx.Action != nil && tx.OK() && (tx.Action.Kind == world.KUndelegate || tx.Action.Kind == world.KRedelegate) {
+					selfUnbonded[tx.Action.Val] = true
+				}
+			}
 			for name, o := range m.pre.obs {
 				if po := post.obs[name]; po.Exists && po.Jailed && !o.Jailed {
-					o.Jailed = true
-					w.Label("jailed-in-launch-block")
+					if selfUnbonded[name] {
+						w.Label("jailed-after-launch-in-launch-block")
+					} else {
+						o.Jailed = true
+						w.Label("jailed-in-launch-block")
+					}
 				}
 				snap.obs[name] = o
 				if o.Exists {
